@@ -77,7 +77,9 @@ def h_plant(flags, nm, nd=None):
     def run(part):
         std_assumptions(part)
         part.bounds = {'filters': nf, 'models': nm, 'distances': nd, 'flags': ''.join(map(str, flags)), 'planted': 'every model index, any A_V0 in [lo,hi], any scale / every grid distance'}
-        part.assumptions |= {"log10 / 10** uninterpreted inverses (log10 10**t = t)", "Models.fit called directly (Fitter wiring decided in C01)"}
+        part.assumptions |= {"log10 / 10** uninterpreted inverses (log10 10**t = t)", "Models.fit called directly (Fitter wiring decided in C01)",
+                             "lemma chaining: equations proved at the linear_regression / optimal_scaling / chi_squared boundaries (and each proved claim) are added to the path's assumptions; the definitions of the cut variables they pin are left out of the relevance-staged queries (hypotheses only dropped; last stage is the full set)",
+                             "sign facts: a cut variable whose definition is structurally a sum of squares times non-negative factors is stated >= 0 (guarded by non-zero denominators)"}
         fx = fitfix.Fit()
         ex = C.Explorer(query_timeout_ms=60000, nonneg_facts=True)
         cl = R.Claims(part, ex, ID)
